@@ -760,10 +760,18 @@ package xpath
 //@   captures[same-test@C01] q == nil || q.Predicate == f.Predicate
 //@   ensures[passes-test@C01] result != nil ==> predv(f.Predicate, pos(result))
 //@   creation[not-from-attribute@C01] kind(pos(node)) != 2     // an attribute start is first moved to its element, whose descendants follow it
+//@   uses tree-child tree-parent tree-depth tree-kinds
+//@   let S0 = kind(pos(node)) != 2
+//@   loop 0 invariant[never-on-attribute@C01] S0 ==> kind(pos(captured(node))) != 2
+//@   loop 1 invariant[climb@C01] S0 ==> kind(pos(captured(node))) != 2 && endOf(pos(captured(node))) == at(0, endOf(pos(captured(node))))     // a climb goes through last children only: the number of following nodes does not change
+//@   ensures[ends-at-root@C01] result == nil ==> isroot(pos(captured(node)))
+//@   ensures[end-of-document@C01] S0 && result == nil ==> endOf(pos(captured(node))) == at(0, endOf(pos(captured(node))))
+//@   ensures[adjacent-subtree@C01] S0 && result != nil ==> pos(captured(node)) == at(0, pos(captured(node))) || pre(pos(captured(node))) == at(0, endOf(pos(captured(node))))     // the subtree walked next starts exactly where the previous one ended
 //@ func (*followingQuery).Select$2$1
-//@   props C15
+//@   props C15 C01
 //@   conforms type iteratorFunc
 //@   captures node != nil
+//@   ensures[current@C01] result == node     // the sub-walk is driven from the walker's own navigator
 //@ func (*precedingQuery).Select$1
 //@   props C15 C01 C12
 //@   theory nav for C01 C12
@@ -783,10 +791,18 @@ package xpath
 //@   theory nav for C01
 //@   captures[same-test@C01] q == nil || is(q, *descendantQuery) && as(q, *descendantQuery).Predicate == p.Predicate
 //@   ensures[passes-test@C01] result != nil ==> predv(p.Predicate, pos(result))
+//@   uses tree-child tree-parent tree-depth tree-kinds tree-up
+//@   let S0 = kind(pos(node)) != 2
+//@   loop 0 invariant[never-on-attribute@C01] S0 ==> kind(pos(captured(node))) != 2
+//@   loop 1 invariant[climb@C01] S0 ==> kind(pos(captured(node))) != 2 && nPrec(pos(captured(node))) == at(0, nPrec(pos(captured(node))))     // a climb goes through first children only: the number of preceding nodes does not change
+//@   ensures[ends-at-root@C01] result == nil ==> isroot(pos(captured(node)))
+//@   ensures[start-of-document@C01] S0 && result == nil ==> nPrec(pos(captured(node))) == at(0, nPrec(pos(captured(node))))
+//@   ensures[adjacent-subtree@C01] S0 && result != nil ==> pos(captured(node)) == at(0, pos(captured(node))) || endOf(pos(captured(node))) - depth(pos(captured(node))) == at(0, nPrec(pos(captured(node))))     // the subtree walked next ends exactly where the previous one started
 //@ func (*precedingQuery).Select$2$1
-//@   props C15
+//@   props C15 C01
 //@   conforms type iteratorFunc
 //@   captures node != nil
+//@   ensures[current@C01] result == node     // the sub-walk is driven from the walker's own navigator
 //@ func (*booleanQuery).Select$1
 //@   props C15 C11 C12
 //@   conforms booleanQuery.iterator
@@ -2578,6 +2594,8 @@ package xpath
 //@ axiom[tree-attr-owner] forall(p, Pos, kind(p) == 2 ==> 1 <= aidx(p) && aidx(p) <= natt(parent(p)) && attr(parent(p), aidx(p)) == p, aidx(p))
 //@ axiom[tree-depth] forall(p, Pos, 0 <= depth(p) && depth(p) < 1073741824 && size(p) >= 1 && nch(p) >= 0 && isroot(p) == (depth(p) == 0), depth(p))
 //@ define walkerOK(level, p) = 0 <= level && level <= depth(p) && (level > 0 ==> kind(p) != 2 && !isroot(p))
+//@ define endOf(x) = pre(x) + size(x)
+//@ define nPrec(x) = pre(x) - depth(x)
 //@ instance sibOrder(q, i) = 1 <= i && i < nch(q) ==> pre(child(q, i + 1)) == pre(child(q, i)) + size(child(q, i))
 //@ axiom[tree-leaf] forall(p, Pos, nch(p) == 0 ==> size(p) == 1, nch(p))
 //@ axiom[tree-pre] forall(p, Pos, forall(q, Pos, kind(p) != 2 && kind(q) != 2 && pre(p) == pre(q) ==> p == q, pre(p), pre(q)))
